@@ -327,6 +327,10 @@ pub fn gen(prop: &str, tier: &str, seed: u64) -> Vec<String> {
             let d = dom_unix(tier, seed);
             fam_unary("comps", false, &d, &mut out);
             fam_mix(false, &d, all_upto, 6, seed, &mut out);
+            // Spec/StdSpec.lean against real std::path
+            for s in &d {
+                out.push(format!("stdcomps {}", hex(s)));
+            }
         }
         "C02" => {
             let d = dom_win(tier, seed);
